@@ -415,6 +415,7 @@ pub fn execute(case: &Case, stats: &mut Stats) -> Outcome {
                                 && e.source_path == "p.py"
                                 && e.location.map(loc_tuple) == Some(want)
                                 && e.python_location() == (want.0 as usize, want.1 as usize)
+                                && format!("{e}") == format!("boom at row {} col {}", want.0, want.1)
                         })
                     };
                     if !ok(&lerr) || !ok(&rerr) {
@@ -481,7 +482,7 @@ pub fn execute(case: &Case, stats: &mut Stats) -> Outcome {
         }
     }
     if nontrivial {
-        stats.distinct.insert(dg.0);
+        stats.note_distinct(dg.0);
     }
     Outcome {
         digest: dg.0,
